@@ -68,6 +68,7 @@ func main() {
 		res.Rule = "random Set/Get/LowerBound/Scan/All/Delete sequences over versioned keys, maxLevel in {1,2,4,9,32}, p in {0.01,0.25,0.5,0.99}; non-trivial = the case overwrites a key, writes a tombstone, scans or deletes an existing key"
 		runCases(s, skipGen(r, scale(120, 2000), scale(120, 300)), res)
 	case "wm":
+		caseTimeout = 120 * time.Second // a case takes milliseconds (a herd of waiters: seconds); a stuck process goroutine blocks VerifSync for good
 		s := Suite{Name: "wm", DriverSuite: "wm", Exec: same(wmExec)}
 		res.Rule = "random Begin/Done sequences on the real WaterMark, DoneUntil compared with the model after every mark (VerifSync), bursts of >100 marks; non-trivial = repeated index, Done without Begin, or burst"
 		runCases(s, wmGen(r, scale(60, 600), scale(80, 200)), res)
